@@ -115,10 +115,24 @@ func (n *vNode) timeout() {
 	r.Cb(r.H, r.V, nil)
 }
 
+// committeeIds: the one-byte ids of the ordered committee: 1..n, or (run parameter idperm=1, n=4) an order that is
+// not sorted by id, so that code which re-orders the committee is visible
+func committeeIds(n int) []byte {
+	if env.ParamOr("idperm", 0) == 1 && n == 4 {
+		return []byte{3, 1, 4, 2}
+	}
+	ids := make([]byte, n)
+	for i := range ids {
+		ids[i] = byte(i + 1)
+	}
+	return ids
+}
+
 func vCommittee(n int, weights []uint64) []interfaces.CommitteeMember {
+	ids := committeeIds(n)
 	c := make([]interfaces.CommitteeMember, n)
 	for i := 0; i < n; i++ {
-		c[i] = interfaces.CommitteeMember{Id: primitives.MemberId{byte(i + 1)}, Weight: primitives.MemberWeight(weights[i])}
+		c[i] = interfaces.CommitteeMember{Id: primitives.MemberId{ids[i]}, Weight: primitives.MemberWeight(weights[i])}
 	}
 	return c
 }
